@@ -79,7 +79,7 @@ def generate(seed: int, tier: str, index: int) -> dict:
         script = [{"op": "auth"}]
         for _ in range(n):
             script.append({"op": "damage", "file": rng.randrange(3), "kind": rng.choice(
-                ["truncate", "truncate", "bitflip", "sizefield", "sizefield"]), "at": rng.randrange(10_000),
+                ["truncate", "truncate", "bitflip", "sizefield", "sizefield", "remove", "empty"]), "at": rng.randrange(10_000),
                 "value": rng.choice([0, 1, 7, 8, 0x7FFFFFFF, 0xFFFFFFFF, 16, 100000])})
             script.append({"op": "exercise"})
         spec["actors"] = [{"id": "storage", "kind": "storage", "role": "media", "prng": rng.getrandbits(32),
@@ -399,6 +399,8 @@ class Storage(RoleClient):
                     continue
                 path = files[step["file"] % len(files)]
                 data = bytearray(path.read_bytes())
+                if not data and step["kind"] not in ("remove", "empty"):
+                    continue        # already emptied by an earlier step: nothing left to damage
                 try:
                     root = isobmff.parse(bytes(data))
                     bounds = []
@@ -414,6 +416,16 @@ class Storage(RoleClient):
                 except Exception:  # noqa: BLE001
                     bounds = [0, len(data)]
                 kind = step["kind"]
+                if kind in ("remove", "empty"):
+                    # the file vanishes (deleted behind the server's back, lost with a crash between a commit and
+                    # the file operation that belongs to it) or is left with no content at all
+                    if kind == "remove":
+                        path.unlink()
+                    else:
+                        path.write_bytes(b"")
+                    world.fired(f"disk.{kind}")
+                    world.note(self.id, f"damage {path.name} {kind}")
+                    continue
                 if kind == "truncate":
                     b = bounds[step["at"] % len(bounds)] + [-1, 0, 1, 4, 9][step["at"] % 5]
                     data = data[:max(1, min(len(data) - 1, b))]
@@ -451,6 +463,10 @@ class Storage(RoleClient):
                     await self.request("GET", BASE + url)
                 except NetTimeout:
                     pass
+            try:
+                await self.request("GET", BASE + f"/dash/odvod/{sdir}/{m['name']}.mp4", headers={"Range": "bytes=0-99"})
+            except NetTimeout:
+                pass
         # inspect endpoint with the damaged bytes
         await self._send("GET", BASE + "/media/inspect")
         tok = self.take("files")
